@@ -646,13 +646,27 @@ fn run_families(run: &mut Run, fams: &[Family], judged_modes: &[Mode], judge_beh
     let mut total_exec = 0u64;
     let mut total_steps = 0u64;
     let mut node_batch: Vec<(Vec<u8>, Vec<u8>)> = vec![];
-    for fam in fams {
+    // wall-clock budget of the whole check (the thorough bounds of these families are chosen as the
+    // next size above quick; where that does not fit, the run says what it completed - a cap, never a
+    // verdict). Programs are enumerated smallest first, so what is completed is a prefix by size.
+    let started = std::time::Instant::now();
+    let budget = std::time::Duration::from_secs(std::env::var("ORCA_MC_BUDGET_S").ok().and_then(|s| s.parse().ok()).unwrap_or(tier.pick(240, 780)));
+    for (fam_no, fam) in fams.iter().enumerate() {
+      let mut fam_n = 0u64;
+      let mut done_programs = 0usize;
+      // every family gets an equal share of the budget; what one leaves unused goes to the next
+      let deadline = budget.mul_f64((fam_no + 1) as f64 / fams.len() as f64);
+      for (chunk_no, chunk) in fam.programs.chunks(4096).enumerate() {
+        if started.elapsed() > deadline {
+            run.cap(format!("family `{}`: its share of the wall-clock budget ({} s for {} families) was used up after {} of {} programs (smallest first); its remaining programs were not run", fam.name, budget.as_secs(), fams.len(), done_programs, fam.programs.len()));
+            break;
+        }
         // cases are generated per program (smallest programs first) and judged in parallel
-        let results: Vec<(usize, Vec<(Case, Result<Judged, String>)>)> = fam
-            .programs
+        let results: Vec<(usize, Vec<(Case, Result<Judged, String>)>)> = chunk
             .par_iter()
             .enumerate()
             .map(|(pi, prog)| {
+                let pi = pi + chunk_no * 4096;
                 let ss = sites(prog, &fam.modes);
                 let mut v = vec![];
                 let mut all_plans: Vec<(Vec<Probe>, Option<u8>)> = plans(&ss, fam.probes, fam.same_site_twice).into_iter().map(|p| (p, None)).collect();
@@ -751,6 +765,10 @@ fn run_families(run: &mut Run, fams: &[Family], judged_modes: &[Mode], judge_beh
                 }
             }
         }
+        fam_n += n;
+        done_programs += chunk.len();
+      }
+        let n = fam_n;
         run.add_evaluations(fam.name, n);
         if let Some(p) = fam.programs.get(fam.programs.len() / 2) {
             run.add_sample(json!({"family": fam.name, "program": p, "sites": sites(p, &fam.modes).len()}));
@@ -778,10 +796,10 @@ pub fn check(id: &'static str, tier: Tier) -> i32 {
             let mut fams = vec![];
             for results in 0..3u8 {
                 let gr = g(if results == 0 { n } else { n - 1 }, 2, &[Mark, Br, BrIf, Ret, Unr, Call, GSet, Store, Div, RetCall, Throw], true, true, true, true, if tier == Tier::Quick { &[Cond::A, Cond::Ctr] } else { CONDS }, results);
-                fams.push(Family { name: ["results=[]", "results=[i32]", "results=[i32,i64]"][results as usize], programs: programs(&gr, &callees), modes: all.clone(), probes: if results == 0 { tier.pick(1, 2) } else { 1 }, same_site_twice: true, with_ordinary: false, companions: vec![] });
+                fams.push(Family { name: ["results=[]", "results=[i32]", "results=[i32,i64]"][results as usize], programs: programs(&gr, &callees), modes: all.clone(), probes: 1, same_site_twice: true, with_ordinary: false, companions: vec![] });
             }
-            // two probes on small programs in the quick tier
-            let gr = g(2, 2, &[Mark, Br, BrIf, Ret, Call, GSet], true, true, true, true, CONDS, 0);
+            // two probes on small programs (one node more in the thorough tier)
+            let gr = g(tier.pick(2, 3), 2, &[Mark, Br, BrIf, Ret, Call, GSet], true, true, true, true, if tier == Tier::Quick { CONDS } else { &[Cond::A, Cond::Ctr] }, 0);
             fams.push(Family { name: "two probes, small programs", programs: programs(&gr, &callees), modes: all.clone(), probes: 2, same_site_twice: true, with_ordinary: false, companions: vec![] });
             let gr = g(tier.pick(2, 3), 2, &[Mark, BrTable], true, false, true, false, &[Cond::A], 0);
             fams.push(Family { name: "br_table programs", programs: programs(&gr, &callees), modes: all, probes: tier.pick(1, 2), same_site_twice: false, with_ordinary: false, companions: vec![] });
